@@ -27,14 +27,19 @@ def worker(sh):
     lines, meta = [], []
 
     def emit(shape, repeat=1):
-        """shape: list of (kind 'a'|'p', ptype 'n'|'P0'|'Q0'|'PQ0')"""
+        """shape: list of (kind 'a'|'p', ptype 'n'|'P0'|'Q0'|'PQ0'[, share]) ; share = the pair points at the same G2 object as the previous
+        pair of its kind"""
         toks = []
         total = 0
         desc = []
-        for kind, pt in shape:
+        lastb = {}
+        for ent in shape:
+            kind, pt = ent[0], ent[1]
+            share = len(ent) > 2 and ent[2] and kind in lastb
             a = 0 if pt in ('P0', 'PQ0') else rng.choice(la)
-            b = 0 if pt in ('Q0', 'PQ0') else rng.choice(lb)
-            toks += [kind, gc1.aff(P[a], rng, True), gc2.aff(Qs[b], rng, True)]
+            b = lastb[kind] if share else (0 if pt in ('Q0', 'PQ0') else rng.choice(lb))
+            lastb[kind] = b
+            toks += [kind.upper() if share else kind, gc1.aff(P[a], rng, True), gc2.aff(Qs[b], rng, True)]
             total += a * b
             desc.append((kind, a % R == 0, b % R == 0))
         lines.append('c.pairing_sum %d %d %s' % (repeat, len(shape), ' '.join(toks)) if shape else 'c.pairing_sum %d 0' % repeat)
@@ -50,6 +55,17 @@ def worker(sh):
     for shp in mine:
         emit(list(shp), repeat=2 if rng.random() < 0.3 else 1)
     sh.count('exhaustive_shapes_total', len(mine))
+    # pairs SHARING one G2 object (same pointer) with their predecessor, with identity G1 members in between: every sharing pattern over
+    # lists of length <= 4 of one kind, preceded by a pair on a different Q
+    share_shapes = []
+    for kd in ('a', 'p'):
+        for n in (2, 3, 4):
+            for pts in itertools.product(('n', 'P0'), repeat=n):
+                for sh_ in itertools.product((False, True), repeat=n - 1):
+                    if any(sh_):
+                        share_shapes.append([(kd, 'n')] + [(kd, pts[0])] + [(kd, pts[i + 1], sh_[i]) for i in range(n - 1)])
+    for shp in share_shapes[sh.index::sh.nshards]:
+        emit(shp, repeat=1)
     # random longer lists, both-identity pairs
     for _ in range(sh.pick(4, 400)):
         n = rng.randrange(6, 13)
@@ -122,7 +138,8 @@ def worker(sh):
             exp = gtlib.e0_pow(total)
             sig = ''.join(k.upper() if not (pz or qz) else k for k, pz, qz in desc)
             na_, np_ = sum(1 for k, _, _ in desc if k == 'a'), sum(1 for k, _, _ in desc if k == 'p')
-            cls = 'n%d/%s/rep%d' % (len(shape), sig if len(shape) <= 5 else ('long' if len(shape) < 30 else 'a%d+p%d' % (na_, np_)), repeat)
+            shared = any(len(ent) > 2 and ent[2] for ent in shape)
+            cls = ('shared-g2/' if shared else '') + 'n%d/%s/rep%d' % (len(shape), sig if len(shape) <= 5 else ('long' if len(shape) < 30 else 'a%d+p%d' % (na_, np_)), repeat)
             for rep in range(repeat):
                 e = C.dec_flat(out[1 + rep])
                 if e != exp:
@@ -160,7 +177,7 @@ def run(ctx):
     ctx.extra['exhaustive'] = True
     ctx.extra['exhaustive_scope'] = 'list shapes of length <= %d over 6 pair kinds (values sampled)' % (4 if ctx.quick else 5)
     ctx.assumptions = ['Python integer arithmetic', 'oracle/bls.py definitional pairing of the generators']
-    need = ['g2prepared_prepare|object-reused/beta*x', 'g2prepared_prepare|object-reused/same', 'g2prepared_prepare|object-reused/point-then-identity', 'pairing_sum|n0/', 'pairing_sum|n1/A/', 'pairing_sum|n1/P/', 'pairing_sum|n2/AP/', 'pairing_sum|n2/pA', 'pairing_sum|n3/', 'prepared_pairing|identity', 'prepared_pairing|generic']
+    need = ['pairing_sum|shared-g2/n3', 'pairing_sum|shared-g2/n4', 'g2prepared_prepare|object-reused/beta*x', 'g2prepared_prepare|object-reused/same', 'g2prepared_prepare|object-reused/point-then-identity', 'pairing_sum|n0/', 'pairing_sum|n1/A/', 'pairing_sum|n1/P/', 'pairing_sum|n2/AP/', 'pairing_sum|n2/pA', 'pairing_sum|n3/', 'prepared_pairing|identity', 'prepared_pairing|generic']
     for r in need:
         if not any(k.startswith(r) for k in ctx.classes):
             ctx.required_classes.add(r)
